@@ -342,6 +342,76 @@ example : mathValue "255ULL".toList = some (.uint 255, true) ∧ mathValue "0xff
     mathValue "0o17ULL".toList = some (.uint 15, true) ∧
     mathValue "18446744073709551616ULL".toList = some (.uint 18446744073709551616, true) := by decide +kernel
 
+/-! ### `Inf` and `NaN` -/
+
+def floatBitsOf : Option Sexp → Option Nat
+  | some (.float b _) => some b
+  | _ => none
+
+theorem sameNumber_of_bits (o : Option Sexp) (b : Nat) (h : floatBitsOf o = some b) :
+    ∃ x, o = some x ∧ sameNumber x (.float b false) := by
+  cases o with
+  | none => cases h
+  | some x =>
+    cases x <;> simp only [floatBitsOf, Option.some.injEq, reduceCtorEq] at h
+    subst h
+    exact ⟨_, rfl, Or.inl rfl⟩
+
+/-- **`literal_value_inf_nan`** — the supported spellings of the specification's infinities and NaN (`Inf`,
+`-Inf`, `+Inf`: the parser folds the sign symbol into the following `Inf` token; `NaN`) are read as the
+IEEE values +∞, −∞, +∞ and a NaN. (The finite fraction/exponent literals are NOT covered: see
+`literal_value_partial`.) -/
+theorem literal_value_inf_nan (s : List Char) (nv : NumVal) (h : mathValue s = some (nv, true))
+    (hk : nv = .nan ∨ ∃ neg, nv = .inf neg) : LiteralValueAt s := by
+  rw [Literal.mathValue_eq] at h
+  have cInf : LiteralValueAt "Inf".toList :=
+    sameNumber_of_bits _ 0x7ff0000000000000 (by decide +kernel)
+  have cNeg : LiteralValueAt ('-' :: "Inf".toList) :=
+    sameNumber_of_bits _ 0xfff0000000000000 (by decide +kernel)
+  have cPos : LiteralValueAt ('+' :: "Inf".toList) :=
+    sameNumber_of_bits _ 0x7ff0000000000000 (by decide +kernel)
+  have cNaN : LiteralValueAt "NaN".toList :=
+    sameNumber_of_bits _ 0x7ff8000000000001 (by decide +kernel)
+  rcases Literal.signOf_cases s with ⟨r, rfl, hs⟩ | ⟨r, rfl, hs⟩ | ⟨hs, _, _⟩
+  · rw [hs] at h
+    rcases Literal.mathBody_special _ _ _ h hk with rfl | ⟨hn, _⟩
+    · exact cNeg
+    · cases hn
+  · rw [hs] at h
+    rcases Literal.mathBody_special _ _ _ h hk with rfl | ⟨hn, _⟩
+    · exact cPos
+    · cases hn
+  · rw [hs] at h
+    rcases Literal.mathBody_special _ _ _ h hk with rfl | ⟨_, rfl⟩
+    · exact cInf
+    · exact cNaN
+
+example : mathValue "-Inf".toList = some (.inf true, true) ∧ mathValue "NaN".toList = some (.nan, true) := by decide +kernel
+
+/-- the one-word spellings for which `LiteralValue` is proved: every integer verdict without a leading `+`
+(hex, octal, binary, decimal with underscores, minus sign), every uint64 verdict (`…ULL` in base 10, 16, 8),
+and the supported `Inf`/`NaN` words -/
+def CoveredSpelling (s : List Char) : Prop :=
+  (∃ v sup, mathValue s = some (.int v, sup) ∧
+      (sup = true ∨ ∃ body, (s = body ∨ s = '-' :: body) ∧ digitsUnderscores body = true)) ∨
+  (∃ n sup, mathValue s = some (.uint n, sup)) ∨
+  (∃ nv, mathValue s = some (nv, true) ∧ (nv = .nan ∨ ∃ neg, nv = .inf neg))
+
+/-- **`literal_value_partial`** — the proved part of `LiteralValue`: for every covered spelling (of any
+length) the reader model answers what the specification demands. Missing from the full statement: the
+finite fraction/exponent literals (verdict `.dec`: the model's `ParseFloat` rounding vs `Spec.nearestF64`, both
+exact algorithms, compared bit for bit on every op but not proved equal), spellings with a leading `+` and
+signed based literals (verdict `may`), and the spellings that are no numbers (that the reader reads nothing
+else as a number). -/
+theorem literal_value_partial (s : List Char) (h : CoveredSpelling s) : LiteralValueAt s := by
+  rcases h with ⟨v, sup, h, hc⟩ | ⟨n, sup, h⟩ | ⟨nv, h, hk⟩
+  · exact literal_value_int s v sup h hc
+  · exact literal_value_uint s n sup h
+  · exact literal_value_inf_nan s nv h hk
+
+example : CoveredSpelling "0x7fffffffffffffff".toList :=
+  Or.inl ⟨9223372036854775807, true, by decide +kernel, Or.inl rfl⟩
+
 /-- **`literal_value_partial`** (1): `strconv.ParseInt/ParseUint` as the parser uses them
 (Horner evaluation) compute the POSITIONAL value Σ dᵢ·baseⁿ⁻¹⁻ⁱ of the specification, for every
 digit string and every base. -/
@@ -351,10 +421,8 @@ theorem literal_digits_positional (base : Nat) (ds : List Char) :
 
 /-- **`literal_value_partial`** (2): the hex, octal, binary and (unsigned) decimal-with-underscores
 tokens convert to the positional value of their digits when it fits int64, and to an error
-otherwise. Missing from the full statement: the classification of every spelling by the cascade
-(tied by T1 + the exhaustive enumeration), signs, the uint64 suffix for non-canonical spellings,
-and fraction/exponent literals (`ParseFloat` is modelled by exact rounding in Model/NumLit and
-compared bit for bit with strconv and with `Spec.nearestF64` on every op). -/
+otherwise. (The step from a spelling to its token and on to the reader's answer: `literal_value_int`,
+`literal_value_uint`.) -/
 theorem literal_int_tokens (c : Char) (r : List Char) :
     (isHexC c = true → atomOfTok ⟨.hex, c :: r⟩ = some (Literal.numeralValue 16 (c :: r))) ∧
     (isHexC c = true → atomOfTok ⟨.oct, c :: r⟩ = some (Literal.numeralValue 8 (c :: r))) ∧
